@@ -561,16 +561,11 @@ def search(ctx, xz, so, modes, refs):
 
 
 def replay(ctx, path):
-    r = json.load(open(path))
+    import replaylib
+    r = replaylib.load("C17", path)
     if "mode" not in r:
-        print("this replay names proof obligations / correspondences that no longer check:")
-        for b in r.get("no_longer_checks", []):
-            print(" -", b["name"])
-        ctx2 = vlib.Check("C17", r.get("tier", "quick"), r.get("seed", 1))
-        rc = 1 if (run(ctx2) and (ctx2.broken or ctx2.violations)) else 0
-        if rc:
-            print("VIOLATION property=C17 replay=%s no-failing-input-found" % path)
-        return rc
+        # no recorded run (an obligation-only record, or the hand-written findings/C17-*.json): the check itself is the replay
+        return replaylib.obligations("C17", run, r, path)
     ctx2 = vlib.Check("C17", r.get("tier", "quick"), r.get("seed", 1))
     pr = prepare(ctx2)
     if pr is None:
